@@ -48,7 +48,17 @@ type Op struct {
 	// a key in flight, the single-flight table would make that call wait for itself; a nested call for
 	// which no such key exists is skipped. A nested g may carry its own Nested up to MaxDepth levels.
 	Nested []Op `json:"nested,omitempty"`
+	// Born (g only, shape expirable; ignored elsewhere): before the call the harness arranges that the next
+	// Born (1..MaxBorn) successful creations for this call's key return items whose expiry time has already
+	// passed when the create function hands them over ("born expired"). The run belongs to the key, not to
+	// the call: what one call does not consume is consumed by the later creations for the key, whichever
+	// call makes them; a later g with Born > 0 on the key replaces the rest of the run by its own, Born == 0
+	// leaves it alone.
+	Born int `json:"born,omitempty"`
 }
+
+// MaxBorn is the longest run of consecutive born-expired creations for one key that one op can order.
+const MaxBorn = 4
 
 // NBufs is the number of reusable PK buffers of the ecache shape.
 const NBufs = 2
@@ -98,6 +108,12 @@ type Info struct {
 	ExpiredReplaced      bool // expirable: stale item replaced
 	ExpiredRecreateFail  bool // expirable: stale item touched, re-creation failed
 	ExpiredEvicted       bool // expirable: a stale item left by eviction/Remove/Clear
+	BornExpired          int  // expirable: successful creations that returned an already-expired item
+	BornMaxRun           int  // ... longest run of consecutive such creations for one key (no fresh creation for that key in between)
+	BornReplacedInCall   bool // a call that missed, got a born-expired item and replaced it at once
+	BornReturnedStale    bool // ... and the replacement was born expired too: returned and resident although stale
+	BornReplacedStale    bool // a resident stale item was replaced by a born-expired one
+	BornRunOverCalls     bool // a run of >= 3 born-expired creations for one key, i.e. spread over at least two calls
 	NestedCalls          int  // calls made from inside the create function
 	NestedDepth2         bool // a nested call made from inside a nested creation
 	NestedChanged        bool // a nested call inserted or removed an entry
@@ -141,6 +157,10 @@ type world struct {
 	lastErr error
 	nErr    int
 	lastIt  *item
+	born    map[string]int  // expirable: key -> number of coming successful creations that are born expired
+	bornRun map[string]int  // expirable: key -> length of the current run of born-expired creations
+	bornN   int             // born-expired creations so far
+	bornMax int             // longest run so far
 	bufs    [NBufs][]string // reusable PK buffers (ecache shape)
 }
 
@@ -186,7 +206,8 @@ func (w *world) create(pk string) (int, error) {
 	fail := w.fail
 	if h := w.hook; h != nil {
 		w.hook = nil
-		h() // nested calls on the same cache; they have their own callback lists
+		h()           // nested calls on the same cache; they have their own callback lists
+		w.fail = fail // ... and their own outcomes; a second create call of the outer call sees the outer one
 	}
 	if fail {
 		w.nErr++
@@ -286,6 +307,18 @@ func build(c Case, w *world) (*sut, error) {
 					return nil, err
 				}
 				w.lastIt = &item{id: id}
+				if w.born[k] > 0 { // this creation is part of a run of born-expired items ordered for the key
+					w.born[k]--
+					w.lastIt.expired = true
+					w.bornN++
+					if w.bornRun == nil {
+						w.bornRun = map[string]int{}
+					}
+					w.bornRun[k]++
+					w.bornMax = max(w.bornMax, w.bornRun[k])
+				} else if w.bornRun[k] != 0 {
+					w.bornRun[k] = 0
+				}
 				return w.lastIt, nil
 			}
 		}
@@ -354,6 +387,7 @@ func WalkAvailable() bool {
 
 func run(c Case, walk bool, info *Info) *vstat.Violation {
 	w := &world{}
+	defer func() { info.BornExpired, info.BornMaxRun, info.BornRunOverCalls = w.bornN, w.bornMax, w.bornMax >= 3 }()
 	s, err := build(c, w)
 	if c.Cap < 1 || c.NilCreate {
 		info.Constructor = true
@@ -461,10 +495,22 @@ func run(c Case, walk bool, info *Info) *vstat.Violation {
 			}
 			return vstat.V(sig, "%s: the create function was called %d time(s) %v, expected %d", where(), len(w.creates), w.creates, n)
 		}
-		if n == 1 && w.creates[0] != pk {
-			return vstat.V("lru:create-arg", "%s: the create function was called with %q, expected %q", where(), w.creates[0], pk)
+		for _, got := range w.creates {
+			if got != pk {
+				return vstat.V("lru:create-arg", "%s: the create function was called with %q, expected %q", where(), got, pk)
+			}
 		}
 		return nil
+	}
+	// setBorn orders a run of born-expired creations for a key (Op.Born; shape expirable only).
+	setBorn := func(key, born int) {
+		if c.Shape != ShapeExpirable || born <= 0 {
+			return
+		}
+		if w.born == nil {
+			w.born = map[string]int{}
+		}
+		w.born[keyName(key)] = min(born, MaxBorn)
 	}
 	// ledger accounts the delete callbacks of the current op against the model after the op.
 	ledger := func() *vstat.Violation {
@@ -585,8 +631,12 @@ func run(c Case, walk bool, info *Info) *vstat.Violation {
 
 	// getOrCreate executes one GetOrCreate against both sides. prog is the program the create function
 	// runs if this call reaches it; stack holds the keys whose creation is in progress around this call.
-	getOrCreate := func(key, vr int, fail bool, prog []Op, stack []int) (v *vstat.Violation, stop bool) {
+	getOrCreate := func(key, vr int, fail bool, born int, prog []Op, stack []int) (v *vstat.Violation, stop bool) {
 		pk := c.pkRepr(key, vr)
+		setBorn(key, born)
+		// nb: how many of the coming creations for this key are born expired. Calls nested in the create
+		// function never touch a key in flight, so the run cannot change while this call is running.
+		nb := w.born[keyName(key)]
 		const (
 			hit = iota
 			staleHit
@@ -644,6 +694,9 @@ func run(c Case, walk bool, info *Info) *vstat.Violation {
 					return v, true
 				}
 				info.ExpiredReplaced = true
+				if nb > 0 { // the replacement is returned as it is: one replacement per call, stale or not
+					info.BornReplacedStale = true
+				}
 				info.Misses++
 				return nil, false
 			}
@@ -690,7 +743,14 @@ func run(c Case, walk bool, info *Info) *vstat.Violation {
 			}
 			return nil, false
 		default:
-			if v := wantCreates(1, pk); v != nil {
+			// expirable: an item that is already expired when the create function returns it is a value that
+			// "reached expires at": the wrapper replaces it once - Remove (delete callback), one more create call -
+			// and returns the replacement as it is.
+			ncreate := 1
+			if nb > 0 && !fail {
+				ncreate = 2
+			}
+			if v := wantCreates(ncreate, pk); v != nil {
 				return v, true
 			}
 			if fail {
@@ -711,6 +771,25 @@ func run(c Case, walk bool, info *Info) *vstat.Violation {
 			}
 			if err != nil {
 				return vstat.V("lru:miss-error", "%s: creation succeeded (#%d) but GetOrCreate returned error %v", where(), w.nextVal, err), true
+			}
+			if ncreate == 2 {
+				first := w.nextVal - 1 // the second create call runs no nested program: consecutive ids
+				if got != w.nextVal {
+					return vstat.V("lru:born-expired-wrong-value", "%s: created #%d (already expired), then its replacement #%d, but GetOrCreate returned #%d", where(), first, w.nextVal, got), true
+				}
+				want := insert(key, pk, vr, first, lenAtMiss) // inserted (evicting if full) before its expiry is looked at
+				want = append(want, del{pk, first})
+				dropAt(find(key))
+				want = append(want, insert(key, pk, vr, w.nextVal, -1)...) // there is room now: no second eviction
+				if v := wantDels("lru:born-expired-callbacks", want, false); v != nil {
+					return v, true
+				}
+				info.BornReplacedInCall = true
+				if nb > 1 {
+					info.BornReturnedStale = true
+				}
+				info.Misses++
+				return nil, false
 			}
 			if got != w.nextVal {
 				return vstat.V("lru:miss-wrong-value", "%s: created #%d but GetOrCreate returned #%d", where(), w.nextVal, got), true
@@ -761,7 +840,7 @@ func run(c Case, walk bool, info *Info) *vstat.Violation {
 		}
 		switch op.K {
 		case "g":
-			if v, stop := getOrCreate(key, vr, op.Fail, op.Nested, stack); v != nil || stop {
+			if v, stop := getOrCreate(key, vr, op.Fail, op.Born, op.Nested, stack); v != nil || stop {
 				return v, true
 			}
 		case "r":
@@ -832,6 +911,7 @@ func run(c Case, walk bool, info *Info) *vstat.Violation {
 	blindOp := func(op Op, key, vr int, stack []int) {
 		switch op.K {
 		case "g":
+			setBorn(key, op.Born)
 			w.fail = op.Fail
 			w.hook = func() {
 				if len(op.Nested) > 0 {
@@ -970,7 +1050,7 @@ func run(c Case, walk bool, info *Info) *vstat.Violation {
 			begin(func() string {
 				return fmt.Sprintf("epilogue (after %d calls): GetOrCreate(fresh key %s) [shape=%s cap=%d] before: %s", g, keyName(key), c.Shape, c.Cap, fmtModel(top))
 			})
-			v, _ := getOrCreate(key, 0, false, nil, nil)
+			v, _ := getOrCreate(key, 0, false, 0, nil, nil)
 			if v == nil {
 				v = ledger()
 			}
@@ -1047,6 +1127,9 @@ func opString(c Case, op Op, key, vr int) string {
 		if len(op.Nested) > 0 {
 			out = "create→{" + nestedString(op.Nested) + "}→" + out[len("create→"):]
 		}
+		if op.Born > 0 && c.Shape == ShapeExpirable {
+			out += fmt.Sprintf(", the next %d creation(s) for the key are born expired", min(op.Born, MaxBorn))
+		}
 		return fmt.Sprintf("GetOrCreate(%s, %s)", pkShow(c, key, vr), out)
 	case "r":
 		return fmt.Sprintf("Remove(%s)", pkShow(c, key, vr))
@@ -1077,6 +1160,9 @@ func nestedString(prog []Op) string {
 			}
 			if len(op.Nested) > 0 {
 				b.WriteString(", create→{" + nestedString(op.Nested) + "}")
+			}
+			if op.Born > 0 {
+				fmt.Fprintf(&b, ", next %d born expired", op.Born)
 			}
 			if op.Fail {
 				b.WriteString(", create→error)")
@@ -1119,7 +1205,7 @@ func (c Case) Hash() uint64 {
 	var ops func(l []Op)
 	ops = func(l []Op) {
 		for _, o := range l {
-			x := uint64(o.K[0]) | uint64(uint8(o.Buf))<<16
+			x := uint64(o.K[0]) | uint64(uint8(o.Buf))<<16 | uint64(uint8(o.Born))<<24
 			if o.Fail {
 				x |= 256
 			}
@@ -1181,6 +1267,14 @@ func (i Info) Classes(c Case) []string {
 	add(i.ExpiredReplaced, "expirable_stale_replaced")
 	add(i.ExpiredRecreateFail, "expirable_stale_recreation_failed")
 	add(i.ExpiredEvicted, "expirable_stale_left_by_evict_remove_clear")
+	add(i.BornExpired > 0, "expirable_item_born_expired")
+	for r := 1; r <= min(i.BornMaxRun, MaxBorn); r++ {
+		cl = append(cl, "expirable_born_expired_run_ge_"+strconv.Itoa(r))
+	}
+	add(i.BornReplacedInCall, "expirable_born_expired_replaced_in_the_creating_call")
+	add(i.BornReturnedStale, "expirable_replacement_of_born_expired_is_born_expired_too")
+	add(i.BornReplacedStale, "expirable_stale_resident_replaced_by_born_expired")
+	add(i.BornRunOverCalls, "expirable_born_expired_run_spans_calls")
 	add(i.NestedCalls > 0, "reentrant_create_made_nested_calls")
 	add(i.NestedDepth2, "reentrant_depth_2")
 	add(i.NestedChanged, "reentrant_nested_call_changed_residents_or_order")
@@ -1215,6 +1309,17 @@ func Alphabet(shape string, keys int) []Op {
 		}
 	}
 	return append(a, Op{K: "c"})
+}
+
+// BornAlphabet is the extra part of the exhaustive alphabet of the expirable shape with items that are born
+// expired: per key, GetOrCreate that orders a run of 1 (replaced by a fresh item in the same call) or of 3 (two in
+// the first call, the third when the stale resident is touched again) such creations for the key.
+func BornAlphabet(keys int) []Op {
+	var a []Op
+	for k := 0; k < keys; k++ {
+		a = append(a, Op{K: "g", Key: k, Born: 1}, Op{K: "g", Key: k, Born: 3})
+	}
+	return a
 }
 
 // ReentrantAlphabet is the extra part of the exhaustive alphabet with re-entrant create functions: per
